@@ -2,7 +2,8 @@ use std::io;
 
 use noodles_vcf as vcf;
 use vcf::record::{
-    genotypes::sample::value::genotype::Genotype as VcfGenotype, Record as VcfRecord,
+    genotypes::{keys::key, sample::value::genotype::Genotype as VcfGenotype},
+    Record as VcfRecord,
 };
 
 use crate::input::{
@@ -44,10 +45,17 @@ where
         match self.inner.read_record(&self.header, &mut self.buf) {
             Ok(0) => ReadStatus::Done,
             Ok(_) => {
+                // A sample's GT may be the missing value while other values are present
+                // (e.g. ".:12"), which is no genotype, just as when the whole sample is missing
                 let result = self
                     .buf
                     .genotypes()
-                    .genotypes()
+                    .values()
+                    .map(|sample| match sample.get(&key::GENOTYPE) {
+                        Some(None) => Ok(None),
+                        _ => sample.genotype().transpose(),
+                    })
+                    .collect::<Result<Vec<_>, _>>()
                     .map_err(|e| io::Error::new(io::ErrorKind::InvalidData, e));
 
                 match result {
